@@ -666,3 +666,55 @@ def fixup_unconditional_rule(chk, cid, prog, cfgname):
                     'the early return under `%s` can be taken for a matrix that has columns: L then keeps row subscripts in the numbering of A instead of '
                     'Pr*A (wrong whenever perm_r is not the identity)' % pretty(bad[0].c[0])[:50], cfgname=cfgname)
     return 1
+
+
+def reserved_slot_rule(chk, cid, prog, p, cfgname):
+    """?gsitrf gives a column whose L part came out empty one fill position: it extends the column by one subscript (`xlsub[jj+1]++`) and one value
+    (`xlusup[jj+1]++`).  Both new slots hold whatever the arrays contained before - residue of an earlier column, of an earlier factorization
+    in a reused workspace, or recycled heap - until they are written; ilu_?pivotL reads the value slot as a pivot candidate (0 is replaced, garbage
+    is accepted), so info, L and U of the same call would depend on what was factored before.  In the block that reserves a slot with
+    `X[e + 1]++` there must be a store into the slot `Y[X[e]]`."""
+    from ..facts import strip, canon, loc, root_ref
+    from ..ir import pretty
+    from ..run import AnalysisBroken
+    f = prog.func(p + 'gsitrf')
+    if f is None:
+        raise AnalysisBroken('%sgsitrf not found' % p)
+    chk.saw(unit=f.unit, func=f.unit + ':' + f.name)
+    PAIR = {'xlsub': 'lsub', 'xlusup': 'lusup'}
+    n = 0
+    for blk in f.body.walk():
+        if blk.k != 'Block':
+            continue
+        for st in blk.c:
+            s0 = strip(st)
+            if not (s0.k == 'Unary' and s0.a['op'] == '++' and strip(s0.c[0]).k == 'Index'):
+                continue
+            ix = strip(s0.c[0])
+            ptr = root_ref(ix)
+            sub = strip(ix.c[1])
+            if ptr is None or ptr.a.get('name') not in PAIR or not (sub.k == 'Binary' and sub.a['op'] == '+' and strip(sub.c[1]).k == 'Int' and strip(sub.c[1]).a.get('value') == 1):
+                continue
+            col = canon(sub.c[0], ids=False)
+            want_arr, want_ptr = PAIR[ptr.a.get('name')], ptr.a.get('name')
+            n += 1
+            inst = '%s:reserved-%s-slot-is-written' % (f.name, want_arr)
+            hit = None
+            for x in blk.walk():
+                if x.k == 'Assign' and x.a['op'] == '=' and strip(x.c[0]).k == 'Index':
+                    lv = strip(x.c[0])
+                    base_txt = canon(lv.c[0], ids=False)
+                    isub = strip(lv.c[1])
+                    if want_arr in base_txt and isub.k == 'Index' and root_ref(isub) is not None and root_ref(isub).a.get('name') == want_ptr \
+                            and canon(isub.c[1], ids=False) == col:
+                        hit = x
+            if hit is not None:
+                chk.ok(cid, inst, sample='`%s` reserved, `%s` stores into it' % (pretty(s0)[:30], pretty(hit)[:50]))
+            else:
+                chk.violate(cid, inst, loc(f, s0), f.name,
+                            '`%s` extends column %s by one %s slot, but nothing in the block stores into %s[%s[%s]]: the slot keeps what the array held before '
+                            '(an earlier factorization in a reused workspace, recycled heap), and the pivot search reads it'
+                            % (pretty(s0)[:30], col, want_arr, want_arr, want_ptr, col), cfgname=cfgname)
+    if n < 2:
+        raise AnalysisBroken('%s: %d reserved slots found, expected 2' % (f.name, n))
+    return n
